@@ -5,6 +5,7 @@
 cd "$(dirname "$0")/.."
 ID="$1"; shift
 for d in "$@"; do
+  case "$d" in /*) ;; *) d="$PWD/$d";; esac
   T=$(mktemp -d "${TMPDIR:-/tmp}/govc-seed-XXXXXX")
   cp -r /repo "$T/repo"
   if ! git -C "$T/repo" apply "$d/patch.diff" 2>/dev/null; then echo "seed $d: patch does not apply"; rm -rf "$T"; continue; fi
